@@ -64,6 +64,10 @@ def stream_line(ev, snapshot=False):
     return " ".join(parts)
 
 
+class ListenerBug(Exception):
+    pass
+
+
 @implementer(ICircuitListener, IStreamListener)
 class RecListener(object):
     def __init__(self, name, run):
@@ -71,6 +75,10 @@ class RecListener(object):
 
     def _n(self, kind, oid, extra=""):
         self.run.notes.append([self.name, kind, oid, extra])
+        if kind.startswith("s") and self.name == self.run.raiser:
+            # a faulty application listener: it fails in every stream notification (which the stream guards each
+            # listener's call against); everybody else is notified all the same
+            raise ListenerBug("listener %s fails in %s" % (self.name, kind))
 
     @staticmethod
     def _flags(kw):
@@ -105,8 +113,9 @@ class RecListener(object):
 
 
 class Run(object):
-    def __init__(self, circ_ids, stream_ids, waits):
+    def __init__(self, circ_ids, stream_ids, waits, raiser=None):
         self.circ_ids, self.stream_ids, self.wait_ids = circ_ids, stream_ids, waits
+        self.raiser = raiser
         self.proto = TorControlProtocol()
         self.tr = proto_helpers.StringTransport()
         self.sim = simtor.SimTor(self.proto, self.tr)
@@ -308,8 +317,8 @@ class Run(object):
                     wrote=wrote, exc=self.exc)
 
 
-def replay(script, circ_ids=(1, 2), stream_ids=(1, 2), waits=("w1", "w2", "w3")):
-    run = Run(list(circ_ids), list(stream_ids), list(waits))
+def replay(script, circ_ids=(1, 2), stream_ids=(1, 2), waits=("w1", "w2", "w3"), raiser=None):
+    run = Run(list(circ_ids), list(stream_ids), list(waits), raiser)
     steps = []
     for e in script:
         s = dict(e)
@@ -317,7 +326,7 @@ def replay(script, circ_ids=(1, 2), stream_ids=(1, 2), waits=("w1", "w2", "w3"))
         steps.append(s)
         if run.exc:
             break
-    return dict(steps=steps, errors=run.errors[:2])
+    return dict(steps=steps, raiser=raiser or "", errors=run.errors[:2])
 
 
 class _Sink(object):
